@@ -241,6 +241,38 @@ BIG_SHAPES = [([8, 8, 8], [7, 7, 7]), ([11, 11, 11], [10, 10, 10]), ([6, 6, 6, 6
 HIDDEN_LEVELS = [(-1.5, -2.0, -3.0, 3.2), (1.5, 2.0, 3.0, -3.2), (-1.5, -2.0, -3.9, 4.0)]
 
 
+def structured_func_tensors():
+    """rank-1 Chebyshev coefficient tensors whose univariate factors put the optimum at special places: exactly even factors
+    peaking at x = 0 (the derivative has an exactly zero constant term, polyroots returns exactly 0.0), optimum at an end point
+    (one end, or both ends tied), a repeated critical point (triple root of the derivative, at 0 and away from 0), a critical
+    point at |x| ~ 1e-8, and sign variants.  Coefficients are in the Chebyshev basis, low order first."""
+    col = lambda v: np.array(v, dtype=float).reshape(1, -1, 1)
+    F_ = dict(
+        even_peak0=[0.75, 0.0, -0.25],                  # 1 - x^2/2
+        even_peak0_neg=[-0.75, 0.0, 0.25],
+        even4_peak0=[1.0, 0.0, -0.5, 0.0, 0.1],
+        flat_peak0=[0.625, 0.0, -0.5, 0.0, -0.125],     # 1 - x^4: triple critical point at 0
+        flat_peak02=None,                               # 1 - (x - 0.2)^4: triple critical point at 0.2 (filled below)
+        even_ends=[0.5, 0.0, 0.5],                      # x^2: both end points tie, minimum at 0
+        end_plus=[0.3, 1.0, 0.2], end_minus=[0.3, -1.0, 0.2],
+        tiny_root=None,                                 # 1 - (x - 1e-8)^2/2
+        double_root=None,                               # (x - 0.3)^2
+        generic=[0.2, -0.7, 0.4, 0.1])
+    P2C = np.polynomial.chebyshev.poly2cheb
+    F_['flat_peak02'] = [float(c) for c in P2C(np.polynomial.polynomial.polysub([1.0], np.polynomial.polynomial.polypow([-0.2, 1.0], 4)))]
+    F_['tiny_root'] = [float(c) for c in P2C([1.0 - 0.5e-16, 1e-8, -0.5])]
+    F_['double_root'] = [float(c) for c in P2C(np.polynomial.polynomial.polypow([-0.3, 1.0], 2))]
+    out = []
+    for name in ('even_peak0', 'even_peak0_neg', 'even4_peak0', 'flat_peak0', 'flat_peak02', 'even_ends', 'end_plus', 'end_minus',
+                 'tiny_root', 'double_root'):
+        out.append((name + '|end_plus', [col(F_[name]), col(F_['end_plus'])]))
+        out.append(('generic|' + name, [col(F_['generic']), col(F_[name])]))
+    out.append(('even|even|even', [col(F_['even_peak0']), col(F_['even4_peak0']), col(F_['flat_peak0'])]))
+    out.append(('even|n1|even', [col(F_['even_peak0_neg']), col([2.0]), col(F_['even_peak0'])]))
+    out.append(('tiny|ends|double', [col(F_['tiny_root']), col(F_['even_ends']), col(F_['double_root'])]))
+    return out
+
+
 def zero_onesigned_tensors():
     """one-signed tensors containing exact zeros: non-negative / non-positive, rank 1 and rank 2 with a zero slice"""
     one = lambda v: np.array(v, dtype=float).reshape(1, -1, 1)
@@ -761,8 +793,13 @@ def _func_cases(tn, rng, thorough):
     for _ in range(30 if thorough else 9):
         d = rng.randint(2, 3)
         shapes.append(([rng.randint(1, 4) for _ in range(d)], [1] + [rng.randint(1, 2) for _ in range(d - 1)] + [1]))
-    for ns, rs in shapes:
-        A = rand_tt(rng, ns, rs, 'float')
+    # rank-2 coefficient tensors that are exactly even in every mode (sums of two even rank-1 terms): critical points exactly at 0
+    ev = [[0.75, 0.0, -0.25], [1.0, 0.0, -0.5, 0.0, 0.1], [0.625, 0.0, -0.5, 0.0, -0.125], [0.5, 0.0, 0.5], [-0.2, 0.0, 0.9]]
+    fixed = [sum_rank1([(1.0, [ev[0], ev[3][:3]]), (0.7, [ev[4], ev[0]])], 2),
+             sum_rank1([(1.0, [ev[1], ev[0], ev[2]]), (-0.4, [ev[2], ev[4], ev[1]])], 3)]
+    tensors = [([G.shape[1] for G in A], [G.shape[0] for G in A] + [1], A) for A in fixed] + \
+              [(ns, rs, rand_tt(rng, ns, rs, 'float')) for ns, rs in shapes]
+    for ns, rs, A in tensors:
         for k, k_loc in [(1, None), (3, None), (4, 2)]:
             d = len(ns)
             inp = dict(stream='F', ns=ns, rs=rs, k=k, k_loc=k_loc, A=[G.tolist() for G in A], func=True)
@@ -835,10 +872,11 @@ def _func_r1_cases(tn, rng, thorough):
     shapes = [[1, 3], [3, 1], [2, 2], [3, 3], [2, 3, 2], [4, 1, 3], [3, 4]]
     for _ in range(24 if thorough else 7):
         shapes.append([rng.randint(1, 5) for _ in range(rng.randint(2, 4))])
-    for ns in shapes:
-        A = rand_tt(rng, ns, [1] * (len(ns) + 1), 'float')
+    tensors = [([G.shape[1] for G in A], A) for _, A in structured_func_tensors()] + \
+              [(ns, rand_tt(rng, ns, [1] * (len(ns) + 1), 'float')) for ns in shapes]
+    for ns, A in tensors:
         d = len(ns)
-        for k, k_loc in [(1, None), (2, 1), (3, None), (5, 2)]:
+        for k, k_loc in ([(1, None), (3, None)] if len(items) < 2 * len(structured_func_tensors()) else [(1, None), (2, 1), (3, None), (5, 2)]):
             inp = dict(stream='R1', ns=ns, k=k, k_loc=k_loc, A=[G.tolist() for G in A], func=True)
             try:
                 Aobj = copy_tt(A)       # the same object is used a second time below
@@ -1424,6 +1462,12 @@ def search(R, ctx, deep, hints):
         for k, k_loc in [(1, None), (3, None), (5, 2), (10, None)]:
             n_eval += 1
             nfun += 1
+            push(_oracle_func(tn, A, k, k_loc))
+    for name, A in structured_func_tensors():
+        for k, k_loc in [(1, None), (3, None), (5, 2)]:
+            n_eval += 1
+            nfun += 1
+            fam['func-structured'] = fam.get('func-structured', 0) + 1
             push(_oracle_func(tn, A, k, k_loc))
     fam['func-rank1'] = nfun
     R.search.append(dict(name='brute force on the dense tensor / fine grid', evaluations=n_eval, failures=len(fails), deep=deep,
